@@ -13,4 +13,14 @@ CHECKS = {
         'lin_ok acceptor (executable oracle). "No call blocks" and data races are checked by watchdog / -race (testing), not proved.'),
   technique='Coq proof (invariant over a thread-level LTS, induction over op sequences) + differential correspondence check with schedule replay',
   design_ref='DESIGN.md section 7 C03'),
+ 'C02': dict(
+  text=('Theorems for EVERY handler behaviour (any output list, error with/without outputs, panic, own Ack/Nack first), publisher kind and behaviour '
+        'about a hand-written model of handleMessage/publishProducedMessages layered on the C03 settlement model: settles exactly once as the last action, '
+        'Ack iff no error and outputs accepted, own settlement never overridden, Ack only after Publish returned nil, nothing published on error, '
+        'outputs unmodified in order in one call. Tied to the code on every run: the full behaviour matrix (1674 scripted cases) is run through a real '
+        'Router with 1..8 messages in flight and every per-message trace is compared with the model and judged by the proved acceptor.'),
+  note=('Trusted: Coq kernel + vm_compute; recover()/goroutine semantics as modelled; scripted subscriber/publisher/handler and the message hook stamps '
+        'that observe the Router\'s settle calls; the Router\'s Ack()/Nack() return value is not observable.'),
+  technique='Coq proof (exhaustive case analysis over the scripted behaviour space, polymorphic in the message type) + differential correspondence check on a real Router',
+  design_ref='DESIGN.md section 7 C02'),
 }
